@@ -833,6 +833,8 @@ def gen_bind_prog(rng):
             for jj in (0, 1, -1):
                 prog.append(('assign', v, ('index', ('index', ('name', 1), j), jj)))
                 v += 1
+    # last statement: an index one past the end (IndexError at run time; jedi falls back to all entries)
+    prog.append(('assign', v, ('index', ('name', 1), rng.choice([len(ps), -len(ps) - 1]))))
     return prog
 
 
@@ -1226,7 +1228,7 @@ def mro_stream(ctx, hiers, stats):
             if 'exc' in r:
                 ctx.deviation(dict(stream='mro', exc=r['exc']['exc'], site=r['exc']['site']), dict(source=r.get('src'), error=r['exc']), 'Script() raised')
             continue
-        if cur is None or len(cur['defs']) >= 60:
+        if cur is None or len(cur['defs']) >= 200:
             cur = dict(defs=[], at=[], mr=[])
             curm = dict(at=[], mr=[])
             groups.append(cur)
@@ -1593,7 +1595,23 @@ def sc_dynparam(u, V, rng):
             'x_%s_c = dp_%s(%s)[0]' % (u, u, b)]
 
 
-SCENARIOS = [('closure', sc_closure), ('lambda', sc_lambda), ('generator', sc_generator), ('comprehension', sc_comprehension),
+def sc_rebind(u, V, rng):
+    a, b, c, d = V(), V(), V(), V()
+    return ['v_%s = %s' % (u, a),
+            'x_%s_a = v_%s' % (u, u),
+            'v_%s = %s' % (u, b),
+            'x_%s_b = v_%s' % (u, u),
+            'def rb_%s(p):' % u,
+            '    w = p',
+            '    w = (w, %s)' % c,
+            '    return w',
+            'x_%s_c = rb_%s(%s)[1]' % (u, u, d),
+            'x_%s_d = rb_%s(%s)[0]' % (u, u, d),
+            'v_%s = %s' % (u, c),
+            'x_%s_e = v_%s' % (u, u)]
+
+
+SCENARIOS = [('rebind', sc_rebind), ('closure', sc_closure), ('lambda', sc_lambda), ('generator', sc_generator), ('comprehension', sc_comprehension),
              ('decorator', sc_decorator), ('descriptors', sc_descriptors), ('magic', sc_magic), ('isinstance', sc_isinstance),
              ('annotation', sc_annotation), ('docstring', sc_docstring), ('inherit', sc_inherit), ('super_init', sc_super_init),
              ('flow', sc_flow), ('unpack', sc_unpack), ('star_unpack', sc_star_unpack), ('containers', sc_containers),
@@ -1764,7 +1782,7 @@ def run(ctx):
         'non-trivial = infer reports something / the occurrence was evaluated by the run; distinct by (source, occurrence, input). '
         'mro: hierarchies over 4 classes from the exhaustive enumeration (bases = ordered selections of <= 2 earlier classes, '
         'override pattern) plus seeded random hierarchies of 3..6 classes; a case = (class, attribute). '
-        'explore: seeded programs assembled from 18 feature scenarios with random values; a case = one binding occurrence r_*/x_*.')
+        'explore: seeded programs assembled from 19 feature scenarios with random values; a case = one binding occurrence r_*/x_*.')
     ctx.assumptions += [
         'function bodies of the core language are closed (parameters, earlier functions, earlier classes); names of functions and classes are unique',
         'Script.infer is asked at the closing bracket / number / name of an occurrence and at the target name for a whole right-hand side',
@@ -1775,7 +1793,7 @@ def run(ctx):
     stats['t_proofs_s'] = t_proofs
     rng = ctx.rng
     # core + bind
-    n_core, n_bind = ctx.n(150, 3000), ctx.n(100, 3000)
+    n_core, n_bind = ctx.n(150, 900), ctx.n(100, 500)
     items = []
     for i in range(n_core):
         items.append(('core', i, Gen(rng, rng.randint(6, 25)).run()))
@@ -1788,16 +1806,18 @@ def run(ctx):
     t0 = time.time()
     # mro
     allh = list(enum_hier4())
+    # seed-independent corpus: the sixteen diamonds K2(K1), K3(K1), K4(K2, K3) / K4(K3, K2) x override patterns
+    corpus = [h for h in allh if h[1][1] == [1] and h[2][1] == [1] and sorted(h[3][1]) == [2, 3]]
     rng.shuffle(allh)
-    hiers = allh[:ctx.n(110, 4000)]
-    for _ in range(ctx.n(70, 3000)):
+    hiers = corpus + allh[:ctx.n(100, 600)]
+    for _ in range(ctx.n(70, 400)):
         hiers.append(gen_hier(rng, rng.randint(3, 6)))
     mro_stream(ctx, hiers, stats)
     stats['t_mro_stream_s'] = round(time.time() - t0, 1)
     t0 = time.time()
     # explore
     ex = []
-    for i in range(ctx.n(100, 2500)):
+    for i in range(ctx.n(100, 600)):
         src, where = gen_explore(rng, rng.randint(3, 6))
         ex.append((i, src, where))
     explore_stream(ctx, ex, stats)
@@ -1812,6 +1832,8 @@ def run(ctx):
 
 
 def replay(ctx, path):
+    if not os.path.isabs(path) and not os.path.exists(path):
+        path = os.path.join(common.VERIF, path)     # the harness runs in a scratch directory
     rec = json.load(open(path))
     print(json.dumps({k: v for k, v in rec.items() if k not in ('program', 'hierarchy')}, indent=1, default=repr)[:6000])
     data = rec.get('input') if isinstance(rec.get('input'), dict) else rec
